@@ -47,23 +47,104 @@ func runC10(c *core.Ctx) {
 	acqAT := authRegistryMethod(c, "acquireAccessToken")
 	acqT := authRegistryMethod(c, "acquireToken")
 	fromCh := authRegistryMethod(c, "setAuthorizationFromChallenge")
-	for n, f := range map[string]*ssa.Function{"setAuthorization": setAuth, "accessTokenForScope": lookup, "deleteExpiredTokens": purge, "acquireAccessToken": acqAT, "acquireToken": acqT, "setAuthorizationFromChallenge": fromCh} {
+	for n, f := range map[string]*ssa.Function{"setAuthorization": setAuth, "acquireAccessToken": acqAT, "acquireToken": acqT, "setAuthorizationFromChallenge": fromCh} {
 		if f == nil {
 			c.Fail("C10.R0", "anchor/ociauth.registry."+n, 0, "(*ociauth.registry)."+n+" not found")
 			return
 		}
 		c.Analysed(facts.FuncName(f))
 	}
-	// R1
-	nLook := 0
+	// the cache lookup and the expiry purge may be helpers or written inline in setAuthorization
+	for _, f := range []*ssa.Function{lookup, purge} {
+		if f != nil {
+			c.Analysed(facts.FuncName(f))
+		}
+	}
+	isCacheSlice := func(v ssa.Value) bool {
+		_, fld, ok := facts.FieldOf(facts.Resolve(v))
+		return ok && fld == "accessTokens"
+	}
+	// isCacheElem: v is an element of registry.accessTokens read in a loop / by index
+	isCacheElem := func(v ssa.Value) bool {
+		u, ok := facts.Resolve(v).(*ssa.UnOp)
+		if !ok {
+			return false
+		}
+		ia, ok := u.X.(*ssa.IndexAddr)
+		return ok && isCacheSlice(ia.X)
+	}
+	byExpiry := func(pred *ssa.Function) bool {
+		for _, f := range facts.WithAnon(pred) {
+			for _, ci := range facts.CallsIn(f) {
+				if strings.HasSuffix(facts.CalleeName(ci.Common()), "time.Time).After") || strings.HasSuffix(facts.CalleeName(ci.Common()), "time.Time).Before") {
+					for _, a := range ci.Common().Args {
+						if _, fld, isF := facts.FieldOf(facts.Resolve(a)); isF && fld == "expires" {
+							return true
+						}
+					}
+				}
+			}
+		}
+		return false
+	}
+	// purge sites in setAuthorization: calls of the purge helper, or an inline
+	// accessTokens = slices.DeleteFunc(accessTokens, <by expiry>)
+	var purgeSites []ssa.Instruction
+	inlinePurgeOK := true
 	for _, ci := range facts.CallsIn(setAuth) {
-		if !calleeIs(ci, lookup) {
+		if purge != nil && calleeIs(ci, purge) {
+			purgeSites = append(purgeSites, ci)
 			continue
 		}
+		if facts.CalleeName(ci.Common()) == "slices.DeleteFunc" && len(ci.Common().Args) == 2 && isCacheSlice(ci.Common().Args[0]) {
+			stored := false
+			if v := ci.Value(); v != nil {
+				for _, ref := range *v.Referrers() {
+					if st, ok := ref.(*ssa.Store); ok {
+						if _, fld, isF := facts.FieldOf(st.Addr); isF && fld == "accessTokens" {
+							stored = true
+						}
+					}
+				}
+			}
+			mc, isMC := facts.Resolve(ci.Common().Args[1]).(*ssa.MakeClosure)
+			ok := stored && isMC && byExpiry(mc.Fn.(*ssa.Function))
+			inlinePurgeOK = inlinePurgeOK && ok
+			c.Check(ok, "C10.R1", "setAuthorization/inline-purge-by-expiry", ci.Pos(), "the inline purge removes tokens by their expiry and stores the result back", "the inline purge of the token cache does not select tokens by their expiry time, or its result is not stored back into the cache")
+			purgeSites = append(purgeSites, ci)
+		}
+	}
+	// lookup sites: calls of the lookup helper, or the load of the cache slice that an inline loop indexes
+	var lookupSites []ssa.Instruction
+	for _, ci := range facts.CallsIn(setAuth) {
+		if lookup != nil && calleeIs(ci, lookup) {
+			lookupSites = append(lookupSites, ci)
+		}
+	}
+	for _, b := range setAuth.Blocks {
+		for _, in := range b.Instrs {
+			if ia, ok := in.(*ssa.IndexAddr); ok && isCacheSlice(ia.X) {
+				if ld, ok := ia.X.(ssa.Instruction); ok {
+					dup := false
+					for _, s0 := range lookupSites {
+						if s0 == ld {
+							dup = true
+						}
+					}
+					if !dup {
+						lookupSites = append(lookupSites, ld)
+					}
+				}
+			}
+		}
+	}
+	// R1
+	nLook := 0
+	for _, ci := range lookupSites {
 		nLook++
 		ok := false
-		for _, cj := range facts.CallsIn(setAuth) {
-			if calleeIs(cj, purge) && facts.Dominates(cj, ci) {
+		for _, cj := range purgeSites {
+			if facts.Dominates(cj, ci) {
 				// no unlock between
 				unlock := func(in ssa.Instruction) bool {
 					cc, isCall := in.(*ssa.Call)
@@ -73,7 +154,7 @@ func runC10(c *core.Ctx) {
 					_, kind, isL := lockCall(cc)
 					return isL && kind == "unlock"
 				}
-				isLook := func(in ssa.Instruction) bool { return in == ssa.Instruction(ci) }
+				isLook := func(in ssa.Instruction) bool { return in == ci }
 				if _, reach := facts.ReachesWithout(cj, unlock, isLook, nil); !reach {
 					ok = true
 				}
@@ -85,22 +166,34 @@ func runC10(c *core.Ctx) {
 		c.Fail("C10.R1", "setAuthorization/purge-before-lookup", setAuth.Pos(), "setAuthorization never consults the token cache")
 	}
 	// the purge removes by expiry: DeleteFunc predicate compares with tok.expires
-	okPurge := false
-	for _, f := range facts.WithAnon(purge) {
-		for _, ci := range facts.CallsIn(f) {
-			if strings.HasSuffix(facts.CalleeName(ci.Common()), "time.Time).After") || strings.HasSuffix(facts.CalleeName(ci.Common()), "time.Time).Before") {
-				for _, a := range ci.Common().Args {
-					if _, fld, isF := facts.FieldOf(facts.Resolve(a)); isF && fld == "expires" {
-						okPurge = true
-					}
-				}
+	if purge != nil {
+		c.Check(byExpiry(purge), "C10.R1", "deleteExpiredTokens/by-expiry", purge.Pos(), "purge predicate compares the token's expiry", "deleteExpiredTokens does not select tokens by their expiry time")
+	} else if len(purgeSites) == 0 {
+		c.Fail("C10.R1", "deleteExpiredTokens/by-expiry", setAuth.Pos(), "no expiry purge of the token cache found (neither a helper nor an inline slices.DeleteFunc over accessTokens)")
+	}
+	_ = inlinePurgeOK
+	// containsGuard: at block b, `T.scope.Contains(<parameter pi of fn>)` holds for the cached token T
+	containsGuard := func(b *ssa.BasicBlock, T ssa.Value, fn *ssa.Function, pi int) bool {
+		for _, cd := range facts.CondsAt(b) {
+			call, isCall := cd.V.(*ssa.Call)
+			if !isCall || !cd.Pos || call.Call.StaticCallee() == nil || call.Call.StaticCallee().Name() != "Contains" {
+				continue
+			}
+			a := call.Call.Args
+			bb, fld, isF := facts.FieldOf(facts.Resolve(a[0]))
+			if isF && fld == "scope" && facts.Resolve(bb) == facts.Resolve(T) && argIsParam(a[1], fn, pi) {
+				return true
 			}
 		}
+		return false
 	}
-	c.Check(okPurge, "C10.R1", "deleteExpiredTokens/by-expiry", purge.Pos(), "purge predicate compares the token's expiry", "deleteExpiredTokens does not select tokens by their expiry time")
 	// R2
 	nRet := 0
-	for _, r := range returnsOf(lookup) {
+	var lookupReturns []*ssa.Return
+	if lookup != nil {
+		lookupReturns = returnsOf(lookup)
+	}
+	for _, r := range lookupReturns {
 		v := facts.RetVal(r, 0)
 		if facts.IsNilConst(v) {
 			continue
@@ -121,34 +214,92 @@ func runC10(c *core.Ctx) {
 		}
 		c.Check(ok, "C10.R2", "accessTokenForScope/contains-guard", r.Pos(), "a cached token is returned only if its scope contains the requested scope", "a cached token is returned on a path where `token.scope.Contains(requested)` is not established (or the containment is tested the wrong way round): a token that does not cover the request's required scope is reused")
 	}
-	if nRet == 0 {
+	if lookup != nil && nRet == 0 {
 		c.Fail("C10.R2", "accessTokenForScope/contains-guard", lookup.Pos(), "the cache lookup never returns a token")
 	}
 	// R3: Bearer values
 	nBearer := 0
+	// bearerOf: ci sets Authorization to "Bearer "+tok — directly, or by handing
+	// tok to a private helper that does exactly that with its parameter
+	directBearer := func(ci ssa.CallInstruction) (tok ssa.Value, isAuth, wellFormed bool) {
+		if facts.CalleeName(ci.Common()) != "(net/http.Header).Set" {
+			return nil, false, false
+		}
+		a := ci.Common().Args
+		if s, isS := facts.ConstString(a[1]); !isS || s != "Authorization" {
+			return nil, false, false
+		}
+		bo, isBo := facts.Resolve(a[2]).(*ssa.BinOp)
+		if !isBo || bo.Op != token.ADD {
+			return nil, true, false
+		}
+		if s, isS := facts.ConstString(bo.X); !isS || s != "Bearer " {
+			return nil, false, false
+		}
+		return facts.Resolve(bo.Y), true, true
+	}
+	bearerOf := func(ci ssa.CallInstruction) (tok ssa.Value, isAuth, wellFormed bool) {
+		if tok, isAuth, wf := directBearer(ci); isAuth {
+			return tok, isAuth, wf
+		}
+		h := ci.Common().StaticCallee()
+		if h == nil || h.Blocks == nil || h.Pkg != setAuth.Pkg || len(privateCallSites(h)) == 0 {
+			return nil, false, false
+		}
+		for _, hci := range facts.CallsIn(h) {
+			if htok, isAuth, wf := directBearer(hci); isAuth {
+				if !wf {
+					return nil, true, false
+				}
+				for i, p := range h.Params {
+					if htok == ssa.Value(p) && i < len(ci.Common().Args) {
+						c.Analysed(facts.FuncName(h))
+						return facts.Resolve(ci.Common().Args[i]), true, true
+					}
+				}
+				return nil, true, false
+			}
+		}
+		return nil, false, false
+	}
 	for _, fn := range []*ssa.Function{setAuth, fromCh} {
 		for _, ci := range facts.CallsIn(fn) {
-			if facts.CalleeName(ci.Common()) != "(net/http.Header).Set" {
+			tv, isAuth, wf := bearerOf(ci)
+			if !isAuth {
 				continue
 			}
-			a := ci.Common().Args
-			if s, isS := facts.ConstString(a[1]); !isS || s != "Authorization" {
-				continue
-			}
-			bo, isBo := facts.Resolve(a[2]).(*ssa.BinOp)
-			if !isBo || bo.Op != token.ADD {
+			if !wf {
 				c.Fail("C10.R3", facts.FuncName(fn)+"/bearer-value", ci.Pos(), "Authorization is not set to \"Bearer \" + token")
 				continue
 			}
-			if s, isS := facts.ConstString(bo.X); !isS || s != "Bearer " {
-				continue
-			}
 			nBearer++
-			tv := facts.Resolve(bo.Y)
 			ok := false
 			if b, fld, isF := facts.FieldOf(tv); isF && fld == "token" {
-				if call, isCall := facts.Resolve(b).(*ssa.Call); isCall && calleeIs(call, lookup) {
+				if call, isCall := facts.Resolve(b).(*ssa.Call); isCall && lookup != nil && calleeIs(call, lookup) {
 					ok = true
+				}
+				if isCacheElem(b) && fn == setAuth {
+					// inline lookup: the cached token is used only under scope.Contains(requiredScope)
+					nRet++
+					g := containsGuard(ci.Block(), b, setAuth, 3)
+					c.Check(g, "C10.R2", "setAuthorization/inline-contains-guard", ci.Pos(), "a cached token is used only if its scope contains the required scope", "a cached token is attached on a path where `token.scope.Contains(requiredScope)` is not established (or the containment is tested the wrong way round): a token that does not cover the request's required scope is reused")
+					ok = g
+					// R5 for the inline form: nothing on the network between the hit and the return
+					network := func(in ssa.Instruction) bool {
+						cc, ok := in.(ssa.CallInstruction)
+						if !ok {
+							return false
+						}
+						if calleeIs(cc, acqAT) || calleeIs(cc, acqT) {
+							return true
+						}
+						return cc.Common().IsInvoke() && cc.Common().Method.Name() == "RoundTrip"
+					}
+					if at, reach := facts.ReachesWithout(ci, network, facts.IsReturn, nil); reach {
+						c.Fail("C10.R5", "setAuthorization/no-request-on-hit", at.Pos(), "a token request / round trip is reachable on the cache-hit branch before returning")
+					} else {
+						c.OK("C10.R5", "setAuthorization/no-request-on-hit", ci.Pos(), "the cache-hit branch returns without any token request")
+					}
 				}
 			}
 			if ex, isEx := tv.(*ssa.Extract); isEx && ex.Index == 0 {
@@ -165,9 +316,12 @@ func runC10(c *core.Ctx) {
 	hostKeying(c, "C10.R3")
 	// R4
 	c10StoredScope(c, acqAT, acqT)
+	if nRet == 0 {
+		c.Fail("C10.R2", "cache-lookup/instance-floor", setAuth.Pos(), "no use of a cached token found (neither a lookup helper returning one nor an inline loop over accessTokens)")
+	}
 	// R5
 	for _, ci := range facts.CallsIn(setAuth) {
-		if !calleeIs(ci, lookup) {
+		if lookup == nil || !calleeIs(ci, lookup) {
 			continue
 		}
 		v := ci.Value()
